@@ -112,7 +112,7 @@ def limits_compile(cx, quick):
 
 
 def regex_limits(cx, quick):
-    small = cx.variant == "small"
+    small = ("small" in cx.variant)
     L = 8 if small else 128
     for k in sorted(set([1, L - 2, L - 1, L, L + 1, L + 2, 2 * L, 10 * L])):
         if k < 1 or k > 2000: continue
@@ -200,7 +200,7 @@ def stack_limits(cx, quick):
 
 
 def match_limits(cx, quick):
-    small = cx.variant == "small"
+    small = ("small" in cx.variant)
     L = 8 if small else 1000000
     filler = " ".join('$f%d = "fill%03d"' % (i, i) for i in range(70))
     rules = 'rule filler { strings: %s condition: any of them } rule hot { strings: $hot = "q" condition: $hot } rule cold { strings: $c = "zz" condition: #c == 2 } rule both { strings: $x = "q" $y = "zz" condition: #y == 2 and $x }' % filler
@@ -413,7 +413,7 @@ def main():
     ck = yv.Check("C15", "exploration")
     quick = ck.tier == "quick"
     total = 0
-    for variant in ("plain", "small"):
+    for variant in ("plain", "small", "asansmall"):        # asansmall: the scaled limits once more under ASan/UBSan, so that a guard that is one element short is a report
         cx = Ctx(ck, variant)
         if variant == "plain":
             limits_compile(cx, quick)
@@ -425,6 +425,7 @@ def main():
         total += cx.n
         yv.drop_worker(variant)
     cx = Ctx(ck, "asan")
+    if not quick: stack_limits(cx, True)
     regex_code_size(cx, quick)
     iterator_stack(cx, quick)
     total += cx.n
